@@ -29,7 +29,7 @@ PROPS = {
           'non-trivial (it contains corruptions); distinct = distinct (algorithm, time, string prefix).',
   'quick': {'cases': 3840, 'max_size': 100, 'wall_s': 600},
   'thorough': {'cases': 16000, 'max_size': 100, 'wall_s': 1800},
-  'essential_classes': ['held-imprint-checked-after-next-decode', 'candidates:substitution', 'candidates:transposition', 'candidates:byte-value', 'candidates:algorithm-byte', 'encode:ok'],
+  'essential_classes': ['crc32:incremental', 'candidates:surplus-of-256k-octets', 'held-imprint-checked-after-next-decode', 'candidates:substitution', 'candidates:transposition', 'candidates:byte-value', 'candidates:algorithm-byte', 'encode:ok'],
   'assumptions': ['reference base-32 / CRC-32 / algorithm table correct (known-answer self-test)'],
  }, 'C03': {
   'technique': 'property-based testing (rapidcheck) + exhaustive calendar-shape enumeration against a reference chain formula (Crypto++ digests)',
@@ -44,7 +44,7 @@ PROPS = {
           '(correction > 255, start level > 200), calendar strings containing both directions; distinct = distinct descriptor (mode, shape string, levels, times).',
   'quick': {'cases': 25600, 'max_size': 200, 'exhaustive': True, 'wall_s': 900},
   'thorough': {'cases': 200000, 'max_size': 300, 'exhaustive': True, 'wall_s': 3000},
-  'essential_classes': ['parsed:aggregate-without-level-output', 'setters:valid', 'setters:invalid:correction > 255', 'setters:invalid:level > 255', 'parsed:with-refused-level', 'parsed:has-metadata', 'parsed:has-legacy-id',
+  'essential_classes': ['shape:left-flag-set-to-another-non-zero-value', 'parsed:aggregate-without-level-output', 'setters:valid', 'setters:invalid:correction > 255', 'setters:invalid:level > 255', 'parsed:with-refused-level', 'parsed:has-metadata', 'parsed:has-legacy-id',
                         'cal:valid-with-alg-switch', 'caltime:valid', 'caltime:impossible', 'shape:too-long', 'list:valid', 'caltime:publication-time>=2^62', 'parsed:metadata-read-through-getters'],
   'assumptions': ['Crypto++ digests are correct', 'publication times below 2^63 (time_t output)'],
  }, 'C05': {
@@ -225,7 +225,7 @@ PROPS = {
   'quick': {'cases': 12800, 'max_size': 150, 'exhaustive': True, 'wall_s': 1200},
   'thorough': {'cases': 32000, 'max_size': 200, 'exhaustive': True, 'wall_s': 3400},
   'sim': ['simsock', 'fakecurl', 'simclock'],
-  'essential_classes': ['single:request-with-configuration-part', 'single:extending-service', 'config:unsolicited-push', 'history:earlier-request-dropped-in-flight', 'single:response', 'single:all-failed', 'error-notice-seen', 'two-requests:cache-full-on-one-endpoint', 'config:extending', 'config:signing', 'config:with-out-of-range-value', 'endpoints:3'],
+  'essential_classes': ['config:first-endpoint-through-setEndpoint', 'single:request-with-configuration-part', 'single:extending-service', 'config:unsolicited-push', 'history:earlier-request-dropped-in-flight', 'single:response', 'single:all-failed', 'error-notice-seen', 'two-requests:cache-full-on-one-endpoint', 'config:extending', 'config:signing', 'config:with-out-of-range-value', 'endpoints:3'],
   'assumptions': ['simulated socket semantics as documented in sim/simnet.hpp'],
  }, 'C11': {
   'technique': 'stateful property testing (rapidcheck histories) with byte-equality invariants and a differential against fresh contexts',
@@ -277,7 +277,7 @@ PROPS = {
   'quick': {'cases': 24000, 'max_size': 300, 'exhaustive': True, 'wall_s': 900},
   'thorough': {'cases': 400000, 'max_size': 400, 'exhaustive': True, 'wall_s': 3400},
   'leaks': True,
-  'essential_classes': ['leak-check:constraints-with-private-oid', 'structure:moved-record-flagged-non-critical', 'find:member', 'find:non-member', 'constraints:empty-file-list-over-context', 'mode:structure-and-trust', 'verified-under-another-context', 'mode:lookup', 'mode:byte-change', 'expect:trusted', 'expect:not-trusted', 'expect:parse-refused', 'signed-range:inexact', 'chain:not-anchored',
+  'essential_classes': ['pkcs7:another-certificate-ahead-of-the-signer', 'leak-check:constraints-with-private-oid', 'structure:moved-record-flagged-non-critical', 'find:member', 'find:non-member', 'constraints:empty-file-list-over-context', 'mode:structure-and-trust', 'verified-under-another-context', 'mode:lookup', 'mode:byte-change', 'expect:trusted', 'expect:not-trusted', 'expect:parse-refused', 'signed-range:inexact', 'chain:not-anchored',
                         'constraints:none', 'constraints:mismatch', 'constraint:proper-prefix', 'constraint:empty', 'constraint:extended', 'flip:signed-range', 'flip:signature-value', 'flip:still-parses',
                         'lookup:ties', 'nearest:hit', 'nearest:miss', 'by-time:hit', 'cert-by-id:hit', 'cert-by-id:miss', 'rule-violated:element-after-signature', 'rule-violated:section-out-of-order'],
   'assumptions': ['certificate validity periods are not varied', 'only the generated inputs are covered'],
